@@ -23,7 +23,7 @@ Bound == Len(st.stk) <= 1 /\ st.bd <= 1 /\ Len(st.dl) <= 2 /\ Len(st.pfx) <= Max
 
 TypeOK ==
   /\ st.m \in ModesOf(lang)
-  /\ st.n \in 0..8 /\ st.v \in 0..(16 * MaxCp + 15) /\ st.tq \in 0..16 /\ st.bd >= 0
+  /\ st.n \in 0..8 /\ st.v \in 0..268435455 /\ st.tq \in 0..16 /\ st.bd >= 0
   /\ st.tl \in 0..2 /\ st.ntok \in 0..1 /\ Len(st.pfx) <= 4
   /\ st.acc = <<>> /\ st.pre = <<>>                    \* nothing accumulates while streaming
   /\ st.un \in 0..3 /\ st.uv \in 0..65535
